@@ -692,7 +692,7 @@ class Decoder(wiring.Component):
         m = Module()
 
         # See Multiplexer.elaborate above.
-        r_data_fanin = 0
+        r_data_fanin = []
 
         with m.Switch(self.bus.addr):
             for sub_map, sub_name, (sub_pat, sub_ratio) in self.bus.memory_map.window_patterns():
@@ -703,13 +703,18 @@ class Decoder(wiring.Component):
 
                 # The CSR bus interface is defined to output zero when idle, allowing us to avoid
                 # adding a multiplexer here.
-                r_data_fanin |= sub_bus.r_data
+                r_data_fanin.append(sub_bus.r_data)
                 m.d.comb += sub_bus.w_data.eq(self.bus.w_data)
 
                 with m.Case(sub_pat):
                     m.d.comb += sub_bus.r_stb.eq(self.bus.r_stb)
                     m.d.comb += sub_bus.w_stb.eq(self.bus.w_stb)
 
-        m.d.comb += self.bus.r_data.eq(r_data_fanin)
+        # OR pairwise, as in Multiplexer.elaborate: a linear chain over about a thousand subordinates is nested
+        # deeper than the recursion limit of the HDL front-end.
+        while len(r_data_fanin) > 1:
+            r_data_fanin = [a | b for a, b in zip(r_data_fanin[0::2], r_data_fanin[1::2])] + \
+                           r_data_fanin[len(r_data_fanin) & ~1:]
+        m.d.comb += self.bus.r_data.eq(r_data_fanin[0] if r_data_fanin else 0)
 
         return m
